@@ -10,15 +10,13 @@ import (
 
 // Processor handles the overall dependency injection code generation process.
 type Processor struct {
-	parser  *Parser
-	varPool *VarPool
+	parser *Parser
 }
 
 // NewProcessor creates a new processor instance.
 func NewProcessor() *Processor {
 	return &Processor{
-		parser:  NewParser(),
-		varPool: NewVarPool(),
+		parser: NewParser(),
 	}
 }
 
@@ -36,7 +34,11 @@ func (p *Processor) ProcessFiles(files []string) error {
 func (p *Processor) processFile(filename string) error {
 	slog.Debug("Processing file", "file", filename)
 
-	metaData, builds, err := p.parser.ParseFile(filename, p.varPool)
+	// Names are scoped to one output file: a pool shared between the files of an
+	// invocation would make a file's output depend on the files processed before it.
+	varPool := NewVarPool()
+
+	metaData, builds, err := p.parser.ParseFile(filename, varPool)
 	if err != nil {
 		return fmt.Errorf("parse file %s: %w", filename, err)
 	}
@@ -52,7 +54,7 @@ func (p *Processor) processFile(filename string) error {
 
 	injectors := make([]*Injector, 0, len(builds))
 	for _, build := range builds {
-		injector, injectorErr := CreateInjector(metaData, build, p.varPool)
+		injector, injectorErr := CreateInjector(metaData, build, varPool)
 		if injectorErr != nil {
 			return fmt.Errorf("create injector: %w", injectorErr)
 		}
@@ -72,7 +74,7 @@ func (p *Processor) processFile(filename string) error {
 		}
 	}()
 
-	if genErr := Generate(f, filename, metaData, injectors, p.varPool); genErr != nil {
+	if genErr := Generate(f, filename, metaData, injectors, varPool); genErr != nil {
 		return fmt.Errorf("generate: %w", genErr)
 	}
 
